@@ -1,6 +1,7 @@
 #!/bin/sh
 # Offline setup after a fresh restore: build the driver and instrumenter, warm the Go build cache for
-# the worker flavours and run the passthrough self-test of the instrumenter.
+# the worker flavours, run the passthrough self-test of the instrumenter and the self-test of the
+# explorer's state cache (cached search vs plain deviation bounding on five small jobs).
 cd "$(dirname "$0")" || exit 2
 unset GOTOOLCHAIN GOSUMDB
 export GOFLAGS=-mod=mod GOPROXY=off
@@ -8,3 +9,6 @@ mkdir -p bin evidence replays
 { go build -o bin/vcheck ./cmd/vcheck && go build -o bin/vinstr ./instr; } || exit 2
 ./bin/vcheck passthrough || exit 2
 ./bin/vcheck warm || exit 2
+out=$(./bin/vcheck C14 --tier quick --only "rs W=2 two handles" --cross 2>&1); rc=$?
+echo "$out" | grep "cross-check\|MISMATCH\|VIOLATION\|ENGINE"
+[ $rc -eq 0 ] || exit 2
